@@ -117,6 +117,12 @@ func (sn *Snap) relAt(i int, v table.VerifNeighbor) string {
 		if i >= 0 && v.AdvertSeq < cur && (s.HeldNbr < 0 || s.HeldNbr == j) && s.HeldAt(i) {
 			return "fresh<"
 		}
+		if i >= 0 && v.AdvertSeq < cur && CanonFaces {
+			// configurations with re-created faces (ext_c18.go): a sync Interest can be delivered to a
+			// router that holds the current advertisement (it arrives on a new face); whether it also
+			// triggers a fetch (parked, held or in flight in some families) depends on the numbers
+			return "fresh<"
+		}
 		return "fresh" + ahead
 	case v.AdvertSeq < cur:
 		return "stale"
@@ -230,6 +236,7 @@ func (sn *Snap) CanonRouting() string {
 		// held closures are a function of (state before the operation, operation, cut point)
 		fmt.Fprintf(&b, "\nHELD %d tasks of %s", len(s.Held), s.HeldDesc)
 	}
+	b.WriteString(canonFaces(s)) // "" unless CanonFaces is set (ext_c18.go)
 	return b.String()
 }
 
